@@ -1,8 +1,8 @@
 SPECIFICATION Spec
 CONSTANTS
-  Scripts = {"plain", "tifa_types"}
+  Scripts = {"plain"}
   Subs = {"ok", "attrassign", "attrlit", "methodcall", "pltassign", "pltcall"}
-  MaxLen = 2
+  MaxLen = 3
   ClearResets <- CodeClearResets
   Writes <- W
   Reads <- R
